@@ -91,6 +91,7 @@ def run(repo: Repo, tier: str, res: CheckResult, seed: int = 0) -> None:
                             "get_converter/convert for the same (src, dst, name) with another recipe receives the converter "
                             "built for the first recipe, so its links/constants/coercers are silently ignored ("
                             + f.message[:160] + ")", f.line))
+    _shared_cache_rule(repo, res)
     corroborated = bool(res.findings)
     for f in sub.findings:
         if corroborated or f.rule in S_ONLY_RULES:
@@ -554,3 +555,16 @@ def context_passing(repo: Repo, res: CheckResult) -> None:
                         norm(creq[0])[:160] if creq else "?",
                         "the first parameter is the source, all other parameters form the context in declaration order",
                         mk.lineno))
+
+
+def _shared_cache_rule(repo: Repo, res: CheckResult) -> None:
+    """shared rule with C11 (clone discipline + facade caches) restricted to the conversion facade"""
+    from .c11 import clone_discipline, facade_caches
+    sub = CheckResult("C11")
+    clone_discipline(repo, sub)
+    facade_caches(repo, sub)
+    res.evaluated("facade:conversion-cache-ownership", True)
+    for f in sub.findings:
+        if "conversion/" in f.file:
+            res.add(Finding("C13", "FACADE.converter-cache-shared-with-clones", f.file, f.qualname, f.construct,
+                            "a converter cache shared between a conversion retort and its clones makes get_converter answer with a converter built under another recipe: " + f.message[:200], f.line))
